@@ -68,7 +68,7 @@ func (e *c28Env) commit(txn *badger.Txn) error {
 // C28 validation of keys and sizes; accepted transactions fit.
 func C28(c *core.Ctx) {
 	c.Rule("part A: boundary ladders of keys (empty, !badger! prefixes, 64999/65000/65001 bytes, hostile bytes) and values (ValueLogFileSize-1/=/+1, in-memory threshold " +
-		"-1/=/+1), namespace offsets 0/3 with banned namespaces, for Set, Delete and Get: err != nil must equal the statement's predicate, a rejected call leaves the " +
+		"-1/=/+1), namespace offsets 0/3 with banned namespaces (also after Close and re-open), for Set, Delete and Get: err != nil must equal the statement's predicate, a rejected call leaves the " +
 		"transaction unaffected (earlier writes commit and read back, rejected key absent), accepted writes round trip; part B: for memtable sizes 1/2/4 MiB (ValueThreshold " +
 		"raised to the batch limit so values count in full) transactions of n=1..12 entries whose accounted size sweeps every value in the last 64 bytes below the " +
 		"largest accepted size, and entry counts in the last 4 below the count limit, committed at small and at 19-digit managed timestamps, plus transactions writing the same 3 keys up to the count limit and managed write batches holding 2x the count limit of versions of 3 keys: once every Set was accepted, " +
@@ -83,8 +83,10 @@ func C28(c *core.Ctx) {
 		inmem  bool
 		nsOff  int
 		vlogSz int64
+		reopen bool // close and re-open after the namespaces were banned
 	}
-	for ci, ca := range []cfgA{{"disk", false, -1, 1 << 20}, {"inmem", true, -1, 1 << 20}, {"ns0", false, 0, 1 << 20}, {"ns3", false, 3, 2 << 20}} {
+	for ci, ca := range []cfgA{{"disk", false, -1, 1 << 20, false}, {"inmem", true, -1, 1 << 20, false}, {"ns0", false, 0, 1 << 20, false}, {"ns3", false, 3, 2 << 20, false},
+		{"ns0-reopened", false, 0, 1 << 20, true}, {"ns3-reopened", false, 3, 1 << 20, true}} {
 		dir := filepath.Join(work, "a"+ca.name)
 		o := badger.DefaultOptions(dir).WithLogger(nil)
 		o.MemTableSize = 8 << 20
@@ -109,6 +111,24 @@ func C28(c *core.Ctx) {
 					c.Violation("C28|A|ban", err.Error(), nil)
 				}
 				env.banned[ns] = true
+			}
+		}
+		if ca.reopen {
+			// bans are part of the stored state: they must hold after Close and Open as well
+			if err := db.Close(); err != nil {
+				c.Violation("C28|A|close", err.Error(), nil)
+			}
+			if db, err = badger.Open(o); err != nil {
+				c.Violation("C28|A|reopen", err.Error(), nil)
+				continue
+			}
+			env.db = db
+			got := map[uint64]bool{}
+			for _, ns := range db.BannedNamespaces() {
+				got[ns] = true
+			}
+			if len(got) != len(env.banned) {
+				c.Violation("C28|A|banned-set-after-reopen", fmt.Sprintf("after re-open BannedNamespaces() lists %d namespaces, %d were banned (offset %d)", len(got), len(env.banned), ca.nsOff), nil)
 			}
 		}
 		var keys [][]byte
